@@ -1073,7 +1073,8 @@ class RepoInterp:
             if tkey not in st.env:
                 st.env[tkey] = st.alloc("dict", {})
             table = st.dict_of(st.env[tkey])
-            k = K((K(tuple(st.freeze(a) for a in args)), K(tuple(sorted((n, repr(st.freeze(v))) for n, v in kwargs.items())))))
+            # lru_cache looks its keys up by == and hash: 1, 1.0 and True are ONE key, and so are tuples of them
+            k = K((K(tuple(_py_eq_key(st.freeze(a)) for a in args)), K(tuple(sorted((n, repr(_py_eq_key(st.freeze(v)))) for n, v in kwargs.items())))))
             if k in table:
                 st.effects.append(("lru-hit", callee.fq))
                 return table[k]
@@ -1492,6 +1493,20 @@ def _with_env(st: State, extra: Dict[str, V]) -> State:
     sub.effects, sub.heap, sub._next = st.effects, st.heap, st._next
     sub.env.update(extra)
     return sub
+
+
+def _py_eq_key(v: Any) -> Any:
+    """a stand-in that is equal for two abstract values exactly when the Python values they describe compare equal (and hash
+    alike): numbers by value across bool / int / float, tuples element-wise (model tuples `val` of class tuple included)"""
+    if isinstance(v, K):
+        if isinstance(v.v, (bool, int, float)):
+            return K(("num", float(v.v)))
+        if isinstance(v.v, tuple):
+            return K(("tuple", tuple(_py_eq_key(x) for x in v.v)))
+        return v
+    if isinstance(v, R) and v.kind == "val" and isinstance(v.fields.get("cls"), S) and v.fields["cls"].name == "builtin:tuple" and isinstance(v.fields.get("elems"), K):
+        return K(("tuple", tuple(_py_eq_key(x) for x in v.fields["elems"].v)))
+    return v
 
 
 def platform_subscript(obj: V, key: V) -> Optional[V]:
